@@ -21,8 +21,14 @@ macro_rules! nothing { ($($t:tt)*) => {}; }
 TVIS = ["", "pub ", "pub(crate) ", "pub(in crate::cases) "]
 
 
+def fname(idx):
+    """name of the visible function at (1-based) position idx: DESCENDING with the position, so that source order is not
+    alphabetical order"""
+    return f"f{10 - idx}"
+
+
 def item_text(c, k):
-    return c["texts"][k].replace("{i}", str(k + 1)).replace("{n}", str(int(c["case"])))
+    return c["texts"][k].replace("fn f{i}", "fn " + fname(k + 1)).replace("{i}", str(k + 1)).replace("{n}", str(int(c["case"])))
 
 
 def render(c):
@@ -32,7 +38,7 @@ def render(c):
     calls = []
     for idx in c["truth"]:
         q = c["quals"][idx - 1]
-        call = f"T::f{idx}(&app)"
+        call = f"T::{fname(idx)}(&app)"
         if "f" in q:
             call = f"({call})()"
         if "a" in q:
@@ -113,9 +119,9 @@ def main():
     events = []
     for c in cases:
         o, kinds = observe(c, by_case.get(c["case"]), dropped, rt)
-        l1 = {"truth": [f"f{i}" for i in c["truth"]], "ids": list(c["truth"])}
+        l1 = {"truth": [fname(i) for i in c["truth"]], "ids": list(c["truth"])}
         cls = ""
-        events.append({"case": c["case"], "l1": l1, "obs": o, "pred": {"mnames": [f"f{i}" for i in c["pred"]]},
+        events.append({"case": c["case"], "l1": l1, "obs": o, "pred": {"mnames": [fname(i) for i in c["pred"]]},
                        "kinds_in": kinds, "body": c["body"], "cls": cls})
     bad, drift = vf.validate(chk, "Trace_C08", events)
     ev = {e["case"]: e for e in events}
